@@ -667,16 +667,22 @@ impl Check for C14 {
             r
         };
         // obligations that need time (a child still starting, ending or handling a forwarded event)
-        // are re-evaluated for up to 2 s; things that must not happen are final at once
+        // are re-evaluated until nothing has happened for 3 s; things that must not happen are final at once
         const RETRY: [&str; 9] = ["invoke-not-started", "nested-invoke-count", "child-not-cancelled-on-exit", "child-not-cancelled-on-exit:state-re-entered", "grandchild-not-cancelled", "done-invoke-missing", "host-event-not-forwarded", "done-invoke-before-all-events", "finalize-without-its-event"];
-        let mut tries = 0;
+        let mut idle_since = Instant::now();
+        let mut last_len = 0usize;
+        let started = Instant::now();
         let (result, snapshot_before_end) = loop {
             let log = scen.log.snapshot();
+            if log.len() != last_len {
+                last_len = log.len();
+                idle_since = Instant::now();
+            }
             let r = evaluate(&log);
             let retry = matches!(&r.verdict, crate::engine::Verdict::Fail { sig, .. } if RETRY.contains(&sig.as_str()));
-            if retry && tries < 20 {
-                tries += 1;
-                std::thread::sleep(Duration::from_millis(100));
+            // give up when nothing has happened for 3 s (a loaded machine is slow, not silent)
+            if retry && idle_since.elapsed() < Duration::from_secs(3) && started.elapsed() < Duration::from_secs(40) {
+                std::thread::sleep(Duration::from_millis(50));
                 continue;
             }
             break (r, log);
